@@ -49,7 +49,7 @@ m = {
  "engines": [{"name": "lzmc", "path": "/verif/mc", "serves_properties": sorted(C), "kind_free_text": "purpose-built explicit-state / stateless bounded-exhaustive explorer in Rust running the real lzma-rs code against reference models (E1 program spaces, E2 history/state graphs with exact fingerprint merging, E3 environment deviations, E4 window closure, E5 neighbourhood/grid enumeration)"}],
  "checks": checks,
  "not_applicable": [],
- "notes": "exit 0 = held on everything explored (KNOWN-FINDING lines for listed findings), 1 = VIOLATION line(s), 2 = machinery error (build failure, model not bound, unsound merge, non-deterministic replay) - never a verdict. Known findings: /verif/known_findings.json (none open; five defects fixed). Seeded breakage kept under /verif/seeded/.",
+ "notes": "exit 0 = held on everything explored (KNOWN-FINDING lines for listed findings), 1 = VIOLATION line(s), 2 = machinery error (build failure, model not bound, unsound merge, non-deterministic replay) - never a verdict. Known findings: /verif/known_findings.json (none open; six defects fixed). Seeded breakage kept under /verif/seeded/.",
 }
 json.dump(m, open('/verif/MANIFEST.json', 'w'), indent=1)
 print("wrote MANIFEST.json with", len(checks), "checks")
